@@ -113,7 +113,7 @@ class OrthoXMLParser(object):
             else:
                 dNode = abstractgene.DuplicationNode(self.ham_object, id=attrib.get('og', None))
 
-            self.paralog_stack.append({'depth': cur_depth, 'node': dNode})
+            self.paralog_stack.append({'depth': cur_depth, 'node': dNode, 'size': len(dNode.children)})
 
             self.in_paralogGroup = self.paralog_stack[-1]['depth']
             self.paralogyNode = self.paralog_stack[-1]['node']
@@ -175,6 +175,9 @@ class OrthoXMLParser(object):
         elif tag == "{http://orthoXML.org/2011/}paralogGroup" and self.skip_this_hog is False:
 
             ln = self.paralog_stack.pop()
+
+            if len(ln['node'].children) == ln['size']:
+                raise ValueError("empty paralogGroup: a paralogGroup must contain at least one member")
 
             ln['node'].set_MRCA()
 
